@@ -165,9 +165,9 @@ IsPartialBijection(R) == \A p, q \in R : (p[1] = q[1]) <=> (p[2] = q[2])
 OverlapLinks == (pc = "done" /\ method = "overlap" /\ NonOvFrames) =>
     \A fr \in 2..T :
        /\ \A l \in Links(fr) : Ov(frames[fr - 1][l[1]], frames[fr][l[2]])
-       /\ \A b \in Range(Len(frames[fr])) :
+       /\ \A b \in Range(Len(frames[fr])) :     \* no overlap with the previous frame => starts a track
              (\A a \in Range(Len(frames[fr - 1])) : <<a, b>> \notin OvRel(fr))
-                => \A l \in Links(fr) : l[2] # b
+                => \E k \in Range(Len(tracks)) : tracks[k][1] = <<fr, b>>
        /\ IsPartialBijection(OvRel(fr)) => Links(fr) = OvRel(fr)
 
 \* declarative greedy matching, independent of the Pick action
